@@ -131,6 +131,26 @@ def sweep(tier: str) -> Sweep:
                 sw.check(False, "the pattern of a directive does not compile", {"cls": name, "directive": d, "clause": "compiles"}, None, str(e))
             sw.check(callable(cls.asset[d].fmt), "a directive without a renderer", {"cls": name, "directive": d, "clause": "renderer"})
         check_sequences(sw, name, cls, r, L, 200 if tier == "quick" else 2000)
+        # every advertised directive is interpreted, not only matched: what the class prints for a directive is read
+        # back into the field the directive renders
+        samples = [_dt.datetime(2024, 11, 23, 17, 45, 56), _dt.datetime(2001, 2, 3, 4, 5, 6)] if "Datetime" in name else [181, 7]   # both fit the three-digit and the eight-bit field
+        for d in table:
+            for v in samples:
+                case = {"cls": name, "directive": d, "clause": "asset-interpreted", "meta": False, "value": str(v)}
+                sw.note(["asset-interpreted", name, d, str(v)], "asset-interpreted")
+                try:
+                    if isinstance(v, int):
+                        want = {"%n": str(v), "%p": str(v).rjust(3, "0"), "%b": format(v, "08b"), "%c": format(v, ","), "%u": format(v, "_")}.get(d)
+                    else:
+                        want = v.strftime("%Y%m%d_%H%M%S" if d == "%n" else d) if d in ("%Y", "%m", "%d", "%H", "%M", "%S", "%n") else None
+                    text = cls.from_value(v).format(d)
+                    if want is not None:
+                        sw.check(text == want, "a directive does not render its field of the value", case, want, text)
+                        text = want
+                    back = cls.parse(text, d).format(d)
+                    sw.check(back == text, "a directive's capture is matched but not interpreted (the field is not read back)", case, text, back)
+                except Exception as e:  # noqa: BLE001
+                    sw.check(False, "the class does not read what it printed for one of its directives", case, None, f"{type(e).__name__}: {str(e)[:80]}")
     # composite directives expand to exactly their parts
     for cls, comp in ((Datetime, {"%n": ["%Y", "%m", "%d", "_", "%H", "%M", "%S"]}), (Version, {"%f": ["%m", "_", "%n", "_", "%c"], "%-f": ["%m", "-", "%n", "-", "%c"]}),
                       (Naming, {"%n": ["%l"], "%N": ["%u"], "%-N": ["%t"], "%-c": ["%p"], "%-K": ["%T"]})):
